@@ -24,6 +24,10 @@ LEVEL = {
          "Exploration of IPv4/IPv6 spellings by construction from random values, host kind after every host-changing step, DNS length predicate."),
  "C11": ("exhaustive enumeration 7 sets x 256 bytes x routes against explicit member lists and RefURL; random round trips",
          "Exhaustive over the finite part of the property (every byte value through every public route); exploration for the round trips over all byte strings."),
+ "C06": ("reference-model differential (RefIDNA + Unicode 17 tables): exhaustive enumeration of map()/NFC single code points/validity probes, rapidcheck + libFuzzer over G-idna domains",
+         "Exhaustive over the finite parts (mapping of all 1,112,064 scalar values, NFC of every single code point; pairs and per-code-point probes exhaustive in the thorough tier) and exploration over generated domains for the composed pipeline, Punycode, label validity, to_unicode and the URL level. Open findings P7/P9/P10 are excluded by explicit input predicates and counted."),
+ "C16": ("metamorphic relations (equivalent spellings, idempotence, ToASCII.ToUnicode round trip) over G-idna domains; rapidcheck + libFuzzer",
+         "Exploration: the relations are theorems of UTS #46, so no external truth is needed; the reference tables only generate the equivalent spellings."),
  "C19": ("invariant predicate over every reachable state of setter histories; rapidcheck + libFuzzer",
          "Exploration over histories; the record invariants are evaluated after the parse and after every step on both URL types."),
 }
